@@ -43,9 +43,14 @@ def four_formats(b):
                                  nested_text_to_flat_json)
     with contextlib.redirect_stderr(io.StringIO()):
         try:
-            msg = CC.decoder().process(b)
+            CC.decoder().process(b, wire_template_data=False)
         except Exception as e:
             return ('skip', 'undecodable')
+        try:
+            msg = CC.decoder().process(b)
+        except Exception as e:
+            # the data decode, building the hierarchical view of them fails: there is no nested rendering of this message
+            return ('hierarchical-view-raises:' + type(e).__name__, 'the message decodes without wiring; with wiring: %r' % (e,))
         try:
             fj = FlatJsonRenderer().render(msg)
         except Exception as e:
@@ -358,6 +363,26 @@ def run_renderer_histories(args):
     return p
 
 
+def run_zero_subsets(_):
+    """messages without subsets (editions x section 2 x compression flag x descriptor lists): rendered, converted, encoded"""
+    p = Partial()
+    for ed in (2, 3, 4):
+        for s2 in (None, b'\x01\x02'):
+            for comp in (False,):      # compressed data without subsets: whether columns are present is not defined
+                for descs in ([1001], [301001, 12101], [101000, 31001, 1001], [201130, 5002, 201000, 222000, 101001, 31031, 33007]):
+                    p.n['exec'] += 1
+                    b = message.build(message.Spec(edition=ed, sec2=s2, descs=descs, nsub=0, compressed=comp), b'')[0]
+                    r = four_formats(b)
+                    p.outcome((ed, s2 is not None, comp, len(descs), r[0] if r else None))
+                    if r and r[0] == 'skip':
+                        p.violation('zero-subsets|' + r[1].split(':')[0], {'edition': ed, 'sec2': s2, 'compressed': comp, 'descs': descs, 'bytes': b},
+                                    'a message without subsets: ' + r[1])
+                    elif r:
+                        p.violation('%s|zero-subsets' % r[0], {'edition': ed, 'sec2': s2, 'compressed': comp, 'descs': descs, 'bytes': b}, r[1])
+    p.n['nodes'], p.n['edges'] = p.n['exec'] + 1, p.n['exec']
+    return p
+
+
 def dnp_structs():
     """221YYY spans that cover operators, replications and sequences (not only plain elements).  Which descriptors FM-94
     wants counted is not judged here: the renderings only have to agree with the implementation's own flat result."""
@@ -466,6 +491,11 @@ def replay(part, case):
         m = scan(open(os.path.join(TESTS, case['file']), 'rb').read())[case['index']]
         p = run_corpus([(case['file'], case['index'], m)])
         return [{'sig': v['sig'], 'detail': v['detail']} for v in p.viol]
+    if part == 'zero-subsets':
+        r = four_formats(case['bytes'])
+        if r and r[0] == 'skip':
+            return [{'sig': 'zero-subsets|' + r[1].split(':')[0], 'detail': r[1]}]
+        return [{'sig': '%s|zero-subsets' % r[0], 'detail': r[1]}] if r else []
     if part == 'strings':
         r = four_formats(case['bytes'])
         return [{'sig': r[0], 'detail': r[1]}] if r and r[0] != 'skip' else []
@@ -519,10 +549,13 @@ def main(tier, seed):
                                 dict(nsub=2, compressed=False, vmap=[0, 1], distinct=True)),
                                ('nested-delayed-u3', list(BM.nested_delayed(2, 2, 1, 3, colliding_only=True)),
                                 dict(nsub=3, compressed=False, vmap=[0, 1, 2], distinct=True)),
+                               ('trailing-class33-u1', list(BM.trailing_class33(L)), dict(nsub=1, compressed=False, distinct=True)),
+                               ('trailing-class33-c2', list(BM.trailing_class33(L)), dict(nsub=2, compressed=True, distinct=True)),
                                ('data-not-present-spans', dnp_structs(), dict(nsub=1, compressed=False, ambiguous_ok=True)),
                                ('data-not-present-spans-c2', dnp_structs(), dict(nsub=2, compressed=True, ambiguous_ok=True))):
         p = merge_all(run_shards(run_structs, [(s, env) for s in split(structs, 64)]))
         rep.add_part(name, p, bounds=dict(structures=len(structs), **env))
+    rep.add_part('zero-subsets', run_zero_subsets(None), bounds={'editions': [2, 3, 4], 'section2': 2, 'compression_flag': 2, 'descriptor_lists': 4})
     nev = len(HIST_KINDS) * len(_history_pool())
     hl = 2 if tier == 'quick' else 3
     p = merge_all(run_shards(run_renderer_histories, [([i], hl) for i in range(nev)]))
